@@ -138,7 +138,7 @@ func main() {
 		add([]string{"b"}, progs("L", "T", "LT"), true, vsched.Config{P: 1, F: 1, Preempt: fine, MaxSteps: 20000})
 		storage = ""
 		bounds["tiers"] = "Redis backend: {L,T,LL,TT,LT}^2 P<=2, faults F<=1; in-memory: 2 threads {L,T,C,X}^2 P<=3; wide alphabet P<=2; faults F<=2/P<=1 and F<=1/P<=2; 3 threads (topologies d,e) {L,T,C}^3 P<=2; storage-operation granularity P<=5 on all topologies"
-		budget = 25 * time.Minute
+		budget = 12 * time.Minute
 	}
 	// heavy jobs first (dynamic queue): more preemptions, more cancellers
 	weight := func(j sdrv.Job) int { return j.Cfg.P*100 + j.Cfg.F*50 + 10*strings.Count(j.Name, "C") + len(j.Name) }
